@@ -97,6 +97,32 @@ DOCS_B = [
 ]
 
 
+# identity constraints whose selectors reach content that exists only in an xsi:type-substituted (derived) type,
+# declared on TWO sibling scopes that share the global element: what one scope met must not change the other
+SCHEMA_C = ('<xs:schema xmlns:xs="%s"><xs:complexType name="Base"><xs:sequence><xs:element name="n" type="xs:string" '
+            'minOccurs="0"/></xs:sequence></xs:complexType><xs:complexType name="Derived"><xs:complexContent>'
+            '<xs:extension base="Base"><xs:sequence><xs:element name="sub" maxOccurs="unbounded"><xs:complexType>'
+            '<xs:attribute name="id" type="xs:string"/><xs:attribute name="to" type="xs:string"/></xs:complexType>'
+            '</xs:element></xs:sequence></xs:extension></xs:complexContent></xs:complexType>'
+            '<xs:element name="item" type="Base"/><xs:element name="root"><xs:complexType><xs:choice maxOccurs="unbounded">'
+            '<xs:element name="listA"><xs:complexType><xs:sequence><xs:element ref="item" maxOccurs="unbounded"/>'
+            '</xs:sequence></xs:complexType><xs:key name="KA"><xs:selector xpath=".//sub"/><xs:field xpath="@id"/></xs:key>'
+            '<xs:keyref name="RA" refer="KA"><xs:selector xpath=".//sub"/><xs:field xpath="@to"/></xs:keyref></xs:element>'
+            '<xs:element name="listB"><xs:complexType><xs:sequence><xs:element ref="item" maxOccurs="unbounded"/>'
+            '</xs:sequence></xs:complexType><xs:key name="KB"><xs:selector xpath=".//sub"/><xs:field xpath="@id"/></xs:key>'
+            '</xs:element></xs:choice></xs:complexType></xs:element></xs:schema>' % XS)
+_IT = '<item xsi:type="Derived">%s</item>'
+DOCS_C = [
+    '<root %s><listA>%s</listA></root>' % (XSI, _IT % '<sub id="1"/><sub id="1"/>'),
+    '<root %s><listB>%s</listB></root>' % (XSI, _IT % '<sub id="1"/><sub id="1"/>'),
+    '<root %s><listA>%s</listA></root>' % (XSI, _IT % '<sub id="1"/><sub id="2" to="1"/>'),
+    '<root %s><listB>%s</listB></root>' % (XSI, _IT % '<sub id="1"/><sub id="2"/>'),
+    '<root %s><listA>%s</listA></root>' % (XSI, _IT % '<sub id="1" to="9"/>'),
+    '<root %s><listB>%s</listB><listA>%s</listA></root>' % (XSI, _IT % '<sub id="3"/><sub id="3"/>', _IT % '<sub id="4"/><sub id="4"/>'),
+    '<root %s><listA><item><n>x</n></item></listA><listB><item/></listB></root>' % XSI,
+]
+
+
 def norm_exc(e):
     return ('EXC', type(e).__name__, compare.norm_reason(getattr(e, 'reason', None) or str(getattr(e, 'message', e)))[:160])
 
@@ -265,6 +291,7 @@ def pools(rnd):
     vd = [open(os.path.join(veh, f)).read() for f in ('vehicles.xml', 'vehicles-1_error.xml', 'vehicles-2_errors.xml')]
     vd = [x for x in vd if 'schemaLocation' not in x] or [x.replace('xsi:schemaLocation', 'xsi:dummy') for x in vd]
     out.append(('corpus:vehicles', xmlschema.XMLSchema10, os.path.join(veh, 'vehicles.xsd'), vd))
+    out.append(('C:xsi-type content in two key scopes', xmlschema.XMLSchema10, SCHEMA_C, DOCS_C))
     return out
 
 
@@ -329,7 +356,7 @@ def run_machine(pool_index, seed, n_examples, steps, st_out):
 
 
 def shards(tier, seed):
-    return [(p, k, tier, seed) for p in range(6) for k in range(2)] + [(p, 2, tier, seed) for p in (0, 2, 3, 4)]
+    return [(p, k, tier, seed) for p in range(7) for k in range(2)] + [(p, 2, tier, seed) for p in (0, 2, 3, 4, 6)]
 
 
 def run_shard(desc):
